@@ -400,6 +400,38 @@ impl Sched {
         }
     }
 
+    /// One driver step for `role`: if an event of the role is waiting to be consumed, take it;
+    /// otherwise release the role if it is parked (its event was consumed earlier) and wait for
+    /// its next event.  Decided under one lock acquisition, so an event that arrives in between
+    /// cannot be mistaken for a consumed one.
+    pub fn step(&self, role: &str, ans: &str, timeout: Duration) -> Option<Event> {
+        let deadline = Instant::now() + timeout;
+        let mut g = self.inner.lock().unwrap();
+        if let Some(s) = g.slots.get_mut(role) {
+            if let Some(e) = s.event.take() {
+                return Some(e);
+            }
+            if s.parked {
+                s.answer = ans.to_string();
+                s.released = true;
+                self.cv.notify_all();
+            }
+        }
+        loop {
+            if let Some(s) = g.slots.get_mut(role) {
+                if let Some(e) = s.event.take() {
+                    return Some(e);
+                }
+            }
+            let now = Instant::now();
+            if now >= deadline {
+                return None;
+            }
+            let (g2, _) = self.cv.wait_timeout(g, deadline - now).unwrap();
+            g = g2;
+        }
+    }
+
     /// wait for the next (unconsumed) event of the role and consume it
     pub fn wait_event(&self, role: &str, timeout: Duration) -> Option<Event> {
         let deadline = Instant::now() + timeout;
